@@ -9,10 +9,12 @@ D = "baize/datastructures.py"
 DEFS = {
     "default_port(s)": "80 if (s == 'http' or s == 'ws') else 443",
     "known(s)": "s == 'http' or s == 'https' or s == 'ws' or s == 'wss'",
+    # an IPv6 listening address is written in brackets
+    "shost()": "('[' + server[0] + ']') if (has(server[0], ':') and not server[0].startswith('[')) else server[0]",
     "base()": "(scheme + '://' + host_header + path) if not is_none(host_header) else "
               "(path if is_none(server) else "
-              "(scheme + '://' + server[0] + path if (is_none(server[1]) or server[1] == default_port(scheme)) else "
-              "scheme + '://' + server[0] + ':' + str(server[1]) + path))",
+              "(scheme + '://' + shost() + path if (is_none(server[1]) or server[1] == default_port(scheme)) else "
+              "scheme + '://' + shost() + ':' + str(server[1]) + path))",
 }
 
 BUILD_URL = Contract(
@@ -85,8 +87,12 @@ R_DEFS = {
     # ends with ']', otherwise the port separator is the last ':'
     "after_at(n)": "n[last_index_of(n, '@') + 1:] if has(n, '@') else n",
     "host_of(h)": "h if (h == '' or h[len(h) - 1] == ']' or not has(h, ':')) else h[:last_index_of(h, ':')]",
-    "new_host()": "kwargs['hostname'] if (has(kwargs, 'hostname') and not is_none(kwargs['hostname'])) "
-                  "else host_of(after_at(self._components.netloc))",
+    # a given IPv6 address without brackets (as URL.hostname reports it) is written with them; without a given
+    # hostname the old host is kept as it stands
+    "given()": "kwargs['hostname']",
+    "new_host()": "((('[' + given() + ']') if (has(given(), ':') and not given().startswith('[')) else given()) "
+                  "if (has(kwargs, 'hostname') and not is_none(kwargs['hostname'])) "
+                  "else host_of(after_at(self._components.netloc)))",
     "new_port()": "kwargs['port'] if has(kwargs, 'port') else self._components.port",
     "new_user()": "kwargs['username'] if has(kwargs, 'username') else self._components.username",
     "new_pass()": "kwargs['password'] if has(kwargs, 'password') else self._components.password",
@@ -149,8 +155,7 @@ URL_REPLACE = Contract(
         "implies(has(kwargs, 'port') and not is_none(kwargs['port']), kwargs['port'] >= 0)",
     ],
     modifies=["kwargs"], frame_check=False, lazy_opt=True,
-    raises={"IndexError": "changes_netloc() and not (has(kwargs, 'hostname') and not is_none(kwargs['hostname'])) and "
-                          "after_at(self._components.netloc) == ''"},
+    raises={},       # (an empty host is kept empty: no IndexError)
     ensures={
         # every component that is not named keeps its value and every named one takes the given value: the new URL is
         # geturl() of the five split fields, where the authority is re-assembled from (user, password, host, port) with
